@@ -183,3 +183,43 @@ contract(
              ("sorted", "is_sorted(result.entries)")],
     frame=["self", "tier"],
 )
+
+
+def distinct_interval_tier(S, name):
+    """wf tier whose entries are pairwise distinguishable by Interval.__eq__ (1e-9 relative tolerance):
+    deleteEntry searches by ==, so 'removes exactly the given entry' needs it.  The region of near-identical
+    slivers is outside this precondition and is a recorded known finding.  The flag is a `requires`: it is
+    consumed by the R-ERASE loop rule (pyvc/loops.py) as the no-duplicates side condition."""
+    t = wf_interval_tier(S, name)
+    t.attrs["_entries"].term.requires_distinct = True
+    return t
+
+
+contract(
+    IT + ".deleteEntry",
+    serves=["C11", "C13", "C07"],
+    inputs=lambda S, cfg: dict(self=distinct_interval_tier(S, "self"),
+                               entry=S.I.make_nt(S.I.get_function("praatio.utilities.constants.Interval"),
+                                                 [S.real("entry.start"), S.real("entry.end"), S.str("entry.label")], {})),
+    spec="spec.tiers.TextgridTier_deleteEntry",
+)
+
+INSERT_CFG = {"collisionMode": ["replace", "merge", "error", "bogus"], "collisionReportingMode": ["silence", "warning"]}
+
+
+def new_interval(S, name="entry"):
+    return S.I.make_nt(S.I.get_function("praatio.utilities.constants.Interval"),
+                       [S.real(name + ".start"), S.real(name + ".end"), S.str(name + ".label")], {})
+
+
+contract(
+    IT + ".insertEntry",
+    serves=["C11", "C05", "C13", "C10", "C07"],
+    configs=INSERT_CFG,
+    inputs=lambda S, cfg: dict(self=distinct_interval_tier(S, "self"), entry=new_interval(S),
+                               collisionMode=cfg["collisionMode"],
+                               collisionReportingMode=cfg["collisionReportingMode"]),
+    requires=["0 <= entry.start", "entry.end <= 1e15", "strip(entry.label) == entry.label"],
+    spec="spec.tiers.IntervalTier_insertEntry", spec_first=True,
+    ensures=wf_interval_clauses("self"),
+)
